@@ -185,7 +185,16 @@ pub fn check_program(ctx: &mut Ctx, h: &H, want_frames: usize, perturb_body: Opt
         }
         notes.push(if r_open.is_ok() { "open-accepted" } else { "open-rejected" });
         match (&r_open, &r_closed) {
-            (Ok(_), Err(es)) => report.push(("verdict-differs".into(), format!("accepted under the context but the closed program is rejected: {}", clip(&es[0].message, 300)))),
+            (Ok(_), Err(es)) => {
+                // the frames' own definitions are checked only in the closed run: if the reference
+                // rejects the closed program too, the generator produced an ill-typed frame
+                let reference_rejects = crate::props::c07::parse_to_h(&src).is_some_and(|h| matches!(crate::typed::judge_source(&h), crate::typed::SourceVerdict::IllTyped(_) | crate::typed::SourceVerdict::IllScoped(_)));
+                if reference_rejects {
+                    notes.push("generator-produced-ill-typed-frame");
+                } else {
+                    report.push(("verdict-differs".into(), format!("accepted under the context but the closed program is rejected: {}", clip(&es[0].message, 300))));
+                }
+            }
             (Err(es), Ok(_)) => report.push(("verdict-differs".into(), format!("the closed program is accepted but the open term is rejected under the context: {}", clip(&es[0].message, 300)))),
             (Err(_), Err(_)) => notes.push("both-rejected"),
             (Ok((eo, to)), Ok((_, tcl))) => {
